@@ -364,6 +364,12 @@ func runC15_2(c *core.Ctx) {
 				c.Check(constant.Sign(cv) == 0, f.Name, "index #"+itoa(k)+" "+exprStr(idx), ie.Pos(), "element 0 exists once a loop is registered", "constant index other than 0")
 				return true
 			}
+			if iv := flow.ObjOf(f.Info, idx); iv != nil {
+				if fs := countedLoops(f, loops)[iv]; fs != nil && fs.Body.Pos() <= ie.Pos() && ie.End() <= fs.Body.End() {
+					c.Ok(f.Name, "index #"+itoa(k)+" "+exprStr(idx), ie.Pos(), "loop variable of a counted loop bounded by len(eventLoops)")
+					return true
+				}
+			}
 			be, isRem := idx.(*ast.BinaryExpr)
 			modSize := false
 			if isRem && be.Op == token.REM {
@@ -626,13 +632,60 @@ func runC15_5(c *core.Ctx) {
 			}
 		}
 	}
+	counted := false
 	if loopBody == nil {
-		c.Violate(f.Name, "range over the remaining loops", f.Decl.Pos(), "no loop over the event loops (a range, or a walk `for rest := …; len(rest) > 0; rest = rest[1:]`)")
+		// the counted loop `for i := 1; i < len(loops); i++ { … loops[i] … }`
+		for iv, fs := range countedLoops(f, loops) {
+			iv := iv
+			start := int64(2)
+			if init, ok := fs.Init.(*ast.AssignStmt); ok {
+				for k, l := range init.Lhs {
+					if flow.ObjOf(f.Info, l) == iv {
+						if cv := flow.ConstOf(f.Info, init.Rhs[k]); cv != nil {
+							start, _ = constant.Int64Val(constant.ToInt(cv))
+						}
+					}
+				}
+			}
+			if start > 1 {
+				continue
+			}
+			isElemExpr := func(e ast.Expr) bool {
+				ie, ok := ast.Unparen(e).(*ast.IndexExpr)
+				return ok && flow.FieldOf(f.Info, ie.X) == loops && flow.ObjOf(f.Info, ie.Index) == iv
+			}
+			// locals of the body bound once to loops[i]
+			elemVars := map[types.Object]bool{}
+			ast.Inspect(fs.Body, func(m ast.Node) bool {
+				if as, ok := m.(*ast.AssignStmt); ok && len(as.Lhs) == len(as.Rhs) {
+					for k, l := range as.Lhs {
+						if o, ok := flow.ObjOf(f.Info, l).(*types.Var); ok && isElemExpr(as.Rhs[k]) && assignCount(f, o) == 1 {
+							elemVars[o] = true
+						}
+					}
+				}
+				return true
+			})
+			loopBody, loopPos, counted = fs.Body, fs.Pos(), true
+			isV = func(e ast.Expr) bool {
+				if isElemExpr(e) {
+					return true
+				}
+				o := flow.ObjOf(f.Info, e)
+				return o != nil && elemVars[o]
+			}
+		}
+	}
+	if loopBody == nil {
+		c.Violate(f.Name, "range over the remaining loops", f.Decl.Pos(), "no loop over the event loops (a range, a walk `for rest := …; len(rest) > 0; rest = rest[1:]`, or a counted loop up to len(eventLoops))")
 		return
 	}
 	// range over eventLoops[1:] or all
-	rx := ast.Unparen(loopX)
-	okRange := false
+	okRange := counted // (a counted loop from 0 or 1 up to len(eventLoops) covers them by construction)
+	var rx ast.Expr
+	if loopX != nil {
+		rx = ast.Unparen(loopX)
+	}
 	if se, ok := rx.(*ast.SliceExpr); ok && flow.FieldOf(f.Info, se.X) == loops && se.High == nil {
 		if se.Low == nil {
 			okRange = true
@@ -718,4 +771,96 @@ func runC15_5(c *core.Ctx) {
 		}
 	})
 	c.Check(setEl && setMin, f.Name, "candidate and minimum updated together", loopPos, "both follow the better loop", "the candidate loop and the running minimum are not both updated on the `<` edge: later comparisons use a stale minimum")
+}
+
+// countedLoop recognises `for i := k; i < len(X.eventLoops) (or a local holding that length); i++ { … }` with a
+// constant start k >= 0: inside its body 0 <= i < len(eventLoops). It returns the index variable, the start and the loop.
+func countedLoops(f *fn, loops *types.Var) map[types.Object]*ast.ForStmt {
+	out := map[types.Object]*ast.ForStmt{}
+	isLenLoops := func(e ast.Expr) bool {
+		call, ok := seeThrough(f, e).(*ast.CallExpr)
+		if !ok || len(call.Args) != 1 {
+			return false
+		}
+		id, ok := call.Fun.(*ast.Ident)
+		return ok && id.Name == "len" && flow.FieldOf(f.Info, call.Args[0]) == loops
+	}
+	ast.Inspect(f.Decl.Body, func(n ast.Node) bool {
+		fs, ok := n.(*ast.ForStmt)
+		if !ok || fs.Init == nil || fs.Cond == nil || fs.Post == nil {
+			return true
+		}
+		init, ok := fs.Init.(*ast.AssignStmt)
+		if !ok || init.Tok != token.DEFINE || len(init.Lhs) != len(init.Rhs) {
+			return true
+		}
+		post, ok := fs.Post.(*ast.IncDecStmt)
+		if !ok || post.Tok != token.INC {
+			return true
+		}
+		iv := flow.ObjOf(f.Info, post.X)
+		if iv == nil {
+			return true
+		}
+		start := int64(-1)
+		for k, l := range init.Lhs {
+			if flow.ObjOf(f.Info, l) == iv {
+				if cv := flow.ConstOf(f.Info, init.Rhs[k]); cv != nil {
+					start, _ = constant.Int64Val(constant.ToInt(cv))
+				}
+			}
+		}
+		if start < 0 {
+			return true
+		}
+		x, y, op, ok := flow.Cmp(fs.Cond)
+		if !ok {
+			return true
+		}
+		bounded := false
+		if flow.ObjOf(f.Info, x) == iv && op == token.LSS {
+			bounded = isLenLoops(y) || func() bool {
+				// a local bound in the same init statement: i, total := 1, len(lb.eventLoops)
+				for k, l := range init.Lhs {
+					if flow.ObjOf(f.Info, l) == flow.ObjOf(f.Info, y) && flow.ObjOf(f.Info, y) != nil {
+						call, ok := ast.Unparen(init.Rhs[k]).(*ast.CallExpr)
+						if ok && len(call.Args) == 1 {
+							if id, ok := call.Fun.(*ast.Ident); ok && id.Name == "len" && flow.FieldOf(f.Info, call.Args[0]) == loops {
+								return true
+							}
+						}
+					}
+				}
+				return false
+			}()
+		}
+		if flow.ObjOf(f.Info, y) == iv && op == token.GTR && isLenLoops(x) {
+			bounded = true
+		}
+		if !bounded {
+			return true
+		}
+		// the index variable is not assigned in the body
+		assigned := false
+		ast.Inspect(fs.Body, func(m ast.Node) bool {
+			switch z := m.(type) {
+			case *ast.AssignStmt:
+				for _, l := range z.Lhs {
+					if flow.ObjOf(f.Info, l) == iv {
+						assigned = true
+					}
+				}
+			case *ast.IncDecStmt:
+				if flow.ObjOf(f.Info, z.X) == iv {
+					assigned = true
+				}
+			}
+			return true
+		})
+		if !assigned {
+			out[iv] = fs
+		}
+		return true
+	})
+	return out
 }
